@@ -204,6 +204,9 @@ type TagMix struct {
 	U16 uint16 `parquet:"u16,uint(64)"`
 	OS8 int8   `parquet:"os8,optional,int(64)"`
 	OU  string `parquet:"ou,uuid,optional"`
+	N64 int64  `parquet:"n64,int(32)"`
+	NI  int    `parquet:"ni,int(32)"`
+	NU  uint64 `parquet:"nu,uint(32)"`
 }
 
 // ByteList: a slice of bytes that the list tag turns into a LIST of 8-bit
@@ -213,6 +216,16 @@ type ByteList struct {
 	N  []uint8 `parquet:"n,list"`
 	B  []byte  `parquet:"b"`
 	O  []uint8 `parquet:"o,list,optional"`
+}
+
+// BoolMaps: maps whose key kind has no specialised entry reader on the typed
+// path (the generic reflect-based scratch buffer: key and value strides differ).
+type BoolMaps struct {
+	ID int64             `parquet:"id"`
+	B  map[bool]int64    `parquet:"b"`
+	S  map[bool]string   `parquet:"s"`
+	F  map[bool]bool     `parquet:"f"`
+	A  map[[4]byte]int32 `parquet:"a"`
 }
 
 // PtrTag: a field written through the value-level writer (the text of a UUID)
@@ -807,4 +820,5 @@ func init() {
 	register[OptElems]("OptElems")
 	register[PtrTag]("PtrTag")
 	register[ByteList]("ByteList")
+	register[BoolMaps]("BoolMaps")
 }
